@@ -361,7 +361,7 @@ PP_OVERRUN = "proof { assert(decode_scanline(ls, width as nat, prev) is None); a
 PP_RUN = """proof { assert(scan(input.rest(), width as nat, prev, 0, replen as nat, last, acc, cons)
         == scan(input.rest(), width as nat, prev, 0, (replen - 1) as nat, last, acc.push(plane_out(prev, acc.len() as int, last)), cons));
     acc = acc.push(plane_out(prev, acc.len() as int, last)); }"""
-PP_OVERRUN_AT = r"return Err\(Error::RdpError\(RdpError::new\(RdpErrorKind::InvalidData, \"Run out of scanline\"\)\)\)"
+PP_OVERRUN_AT = r'return Err\(Error::RdpError\(RdpError::new\(RdpErrorKind::InvalidData, "[^"]*"\)\)\)'
 # completeness, as far as the generic reader allows: the explicit rejections happen only for malformed encodings
 PP_CLAIMS = [(PP_OVERRUN_AT, n, PP_OVERRUN, "before", "C09", "reject-only-malformed-%d" % n) for n in (1, 2, 3, 4)]
 PP_HINTS = [
